@@ -5,7 +5,38 @@ over all names of length <= NameLen over {a , = space " \\}; typed field literal
 model that every point inside the class round-trips (Inv11).  Binding: every enumerated point is replayed on the real
 models package: NewPoint -> String / AppendString / PrecisionString(p) -> ParsePointsWithPrecision(p) for every
 precision, MakeKey -> ParseKeyBytes; compared: measurement, tags in sorted order, field names/types/values, time."""
+import json
+import os
+
 import vlib
+
+
+def tlc_dump(ctx, cfg, timeout, must_pass=True, count=True):
+    """TLC run with -dump.  Development aid: with VERIF_LP_DUMP_CACHE=<dir> the dump of a configuration is kept in <dir>
+    and reused by later runs (TLC's part does not depend on the tree under test or on the seed); unset in normal use."""
+    cache = os.environ.get('VERIF_LP_DUMP_CACHE')
+    if cache:
+        os.makedirs(cache, exist_ok=True)
+        dp, mp = os.path.join(cache, cfg + '.dump'), os.path.join(cache, cfg + '.json')
+        if os.path.exists(dp) and os.path.exists(mp):
+            meta = json.load(open(mp))
+            r = vlib.TLCResult()
+            r.ok, r.generated, r.distinct, r.dump_path, r.cached = True, meta['generated'], meta['distinct'], dp, True
+            ctx.states += r.distinct
+            ctx.transitions += r.generated
+            ctx.tlc_runs.append({'spec': 'LineProtocol', 'cfg': cfg, 'generated': r.generated, 'distinct': r.distinct, 'depth': meta.get('depth', 0),
+                                 'ok': True, 'violated': None, 'wall_s': 0.0, 'mode': 'bfs (dump reused from VERIF_LP_DUMP_CACHE)'})
+            return r
+    if must_pass:
+        r = ctx.tlc_must_pass('LineProtocol', cfg, timeout=timeout, dump=True)
+    else:
+        r = ctx.tlc('LineProtocol', cfg, timeout=timeout, dump=True, count=count)
+    r.cached = False
+    if cache and r.ok:
+        import shutil
+        shutil.copy(r.dump_path, dp)
+        json.dump({'generated': r.generated, 'distinct': r.distinct, 'depth': r.depth}, open(mp, 'w'))
+    return r
 
 
 def cases_from_dump(ctx, r, variants):
@@ -25,7 +56,7 @@ def run(ctx):
     tier = ctx.tier
     # (TLC's -coverage cost model exhausts the heap on the deeply recursive scanner operators, so the vacuity guard counts
     # the states each action produced in the dump instead: a state with exp # None was produced by GenPoint)
-    r = ctx.tlc_must_pass('LineProtocol', f'LineProtocol.C11_{tier}.cfg', timeout=1500, dump=True)
+    r = tlc_dump(ctx, f'LineProtocol.C11_{tier}.cfg', 1500)
     variants = 2 if tier == 'quick' else 4
     cases = cases_from_dump(ctx, r, variants)
     r.coverage = {'GenPoint': len(cases)}
@@ -41,7 +72,7 @@ def run(ctx):
         raise vlib.Inconclusive('vacuity guard: the round-trippable class is empty or everything')
     ctx.exhaustive = True
     binary = ctx.go_build('lp')
-    res, lines = ctx.replay(binary, cases, timeout=1200)
+    res, lines = ctx.replay(binary, cases, timeout=1200, case_timeout='900s')
     ctx.absorb(res, lines)
     ctx.extra_cov['points_enumerated'] = len(cases)
     ctx.extra_cov['points_by_family'] = fams
